@@ -1,5 +1,6 @@
 // Program interpreter: turns the generated IR into Wiring calls.
 #include "hv.h"
+#include <hgraph/lib/std/operators/impl/higher_order_impl.h>
 
 #include <hgraph/types/record_replay.h>
 #include <hgraph/types/subgraph_wiring.h>
@@ -252,6 +253,14 @@ void wire_stmts(Scope &sc, const JV &stmts) {
             out = WiringPortRef::peered_source(of.peered_node(), {}, err_schema, GraphEdgeSourceKind::ErrorOutput);
         } else if (op == "struct") {
             out = WiringPortRef::structural_source(parse_ts(st.at("schema").as_str()), std::move(ins));
+        } else if (op == "mesh_ref") {
+            // mesh_(f)[key] inside the function being meshed: exactly what stdlib::mesh_ref<T>(w, key) does - a never-ticking
+            // placeholder of the element type that the mesh_subscribe node re-binds to the sibling instance's output
+            WiringPortRef key = resolve_ref(sc, st.at("key"));
+            const TSValueTypeMetaData *elem = parse_ts(st.at("schema").as_str());
+            ResolvedOperatorCall r = OperatorRegistry::instance().resolve("nothing", std::span<const WiringArg>{}, true, elem, {}, w.operator_state(), &w);
+            WiringPortRef placeholder = r.impl->wire(w, r.map, r.args, r.kwargs).output.erased();
+            out = stdlib::higher_order_impl_detail::mesh_ref_erased(w, key, placeholder);
         } else if (op == "alias") {
             out = resolve_ref(sc, st.at("of"));
         } else if (op == "rankdep") {
